@@ -474,6 +474,12 @@ TWIN_POLICIES = [p for p in POLICIES if p['kind'] == 'pctc'] + [
     {'kind': 'pcta', 'k': 1, 'est': 30}, {'kind': 'pcta', 'k': 1, 'est': 100}, {'kind': 'pcta', 'k': 2, 'est': 100},
     {'kind': 'pcta', 'k': 2, 'est': 300}, {'kind': 'pcta', 'k': 3, 'est': 300}] + [
     {'kind': 'crit', 'p_crit': 0.3, 'p_base': 0.002}, {'kind': 'walk', 'p': 0.02}]
+RDV_POLICIES = [{'kind': 'rdv', 'est': 25, 'burst': 60, 'alt': 1.0, 'rounds': 2},
+                {'kind': 'rdv', 'est': 60, 'burst': 400, 'alt': 1.0, 'rounds': 1},
+                {'kind': 'rdv', 'est': 60, 'burst': 400, 'alt': 0.6, 'rounds': 3},
+                {'kind': 'rdv', 'est': 150, 'burst': 2000, 'alt': 1.0, 'rounds': 2}]
+POLICIES += RDV_POLICIES[:2]
+TWIN_POLICIES += RDV_POLICIES * 2
 
 
 def _has_prev(op):
